@@ -2045,14 +2045,13 @@ impl Fs {
                     self.synced_entries.swap_remove(p);
                 }
                 PendingOp::Rename { from, to } => {
-                    if from.parent() == Some(path) {
-                        dir_modified = true;
-                        self.synced_entries.swap_remove(from);
-                    }
-                    if to.parent() == Some(path) {
-                        dir_modified = true;
-                        self.synced_entries.insert(to.clone());
-                    }
+                    // A rename is one atomic change of two directory
+                    // entries and this flush consumes the whole op, so both
+                    // halves become durable together, whichever of the two
+                    // directories is the one being synced.
+                    dir_modified = true;
+                    self.synced_entries.swap_remove(from);
+                    self.synced_entries.insert(to.clone());
                 }
                 _ => {}
             }
